@@ -449,7 +449,7 @@ func verifSameFileChunksShareStream(l *verifLayer) bool {
 			file = i
 			seen = map[int64]bool{}
 		}
-		if (e.Type == "reg" || e.Type == "chunk") && file >= 0 && e.Offset != 0 {
+		if ((e.Type == "reg" && e.Size > 0) || e.Type == "chunk") && file >= 0 {
 			if seen[e.Offset] {
 				return true
 			}
@@ -530,6 +530,9 @@ func verifClassSuffix(l *verifLayer) string {
 	if l.class == "conf" {
 		return ""
 	}
+	if l.variant != "" {
+		return ":" + l.variant
+	}
 	return ":" + l.class
 }
 
@@ -570,8 +573,8 @@ func (s *verifSession) dumpBoth(o *verifOpen, readAll bool) {
 		return // only accept/reject agreement is required outside the spec
 	}
 	pre := "stores-differ:"
-	if l.class == "cand" {
-		pre = "cand:stores-differ:"
+	if l.class == "cand" && len(l.candidates) > 0 {
+		pre = l.candidates[0] + ":"
 	}
 	if o.mem.TOCDigest() != o.db.TOCDigest() {
 		sig := pre + "toc-digest"
@@ -585,8 +588,11 @@ func (s *verifSession) dumpBoth(o *verifOpen, readAll bool) {
 		out.Fail(pre+"rootid", "root id 0")
 	}
 	n := verifCompare(out, o, pre)
-	if n == 0 {
+	if n == 0 && o.mem.TOCDigest() == o.db.TOCDigest() {
 		out.Count("layers-agree")
+		if l.class == "cand" {
+			out.Count("cand-agrees:" + pre)
+		}
 	}
 	// file bytes against the source
 	if readAll && l.files != nil {
@@ -605,6 +611,10 @@ func (s *verifSession) dumpBoth(o *verifOpen, readAll bool) {
 				exp := "empty"
 				if len(want) > 0 {
 					exp = fmt.Sprintf("ok %d %x", len(want), sha256.Sum256(want))
+				}
+				if x.res != exp && x.verb == "readpre" && d == o.dbDump && strings.HasPrefix(x.res, "err") && verifSameFileChunksShareStream(l) {
+					out.Count("db-prereader-multi-chunk-stream")
+					continue // reported once by the store comparison under its own signature
 				}
 				if x.res != exp {
 					out.Fail("bytes-differ", fmt.Sprintf("layer %s [%s]: %s %q: got %s want %s", o.tag, l.label, x.verb, p, x.res, exp))
@@ -730,16 +740,22 @@ func TestVerifC05(t *testing.T) {
 		n = 0
 	}
 	for i := 0; i < n; i++ {
-		switch rnd.Pick(3, 2) {
+		compr := []string{"gzip", "zstd", "ext"}[rnd.Pick(3, 2, 1)]
+		switch rnd.Pick(9, 7, 2, 2) {
 		case 0:
-			compr := []string{"gzip", "zstd", "ext"}[rnd.Pick(3, 2, 1)]
 			layers = append(layers, verifGenConforming(rnd, fmt.Sprintf("gen#%d", i), compr))
-		default:
+		case 1:
 			l, err := verifGenBuilder(rnd, fmt.Sprintf("build#%d", i))
 			if err != nil {
 				t.Fatalf("builder: %v", err)
 			}
 			layers = append(layers, l)
+		case 2:
+			k := verifCandKinds[rnd.Intn(len(verifCandKinds))]
+			layers = append(layers, verifGenVariant(rnd, fmt.Sprintf("cand#%d", i), compr, k))
+		default:
+			k := verifNonconfKinds[rnd.Intn(len(verifNonconfKinds))]
+			layers = append(layers, verifGenVariant(rnd, fmt.Sprintf("nonconf#%d", i), compr, k))
 		}
 	}
 	sess := 0
